@@ -113,6 +113,18 @@ def after_await(fn, aw, bb):
     return aw["switch_bb"] is not None and aw["ready"] is not None and fn.edge_dominates(aw["switch_bb"], aw["ready"], bb)
 
 
+def await_payloads(fn, aw):
+    """Locals that receive the value an await produced (`let x = fut.await`): plain moves out of the Ready
+    payload of the poll result, on blocks that follow the Ready edge."""
+    out = []
+    for bb, i, st in fn.stmts():
+        rv = st["rv"]
+        if rv["rv"] == "use" and rv["op"].get("k") in ("copy", "move") and rv["op"]["pl"]["l"] == aw["dest"] and rv["op"]["pl"]["p"] \
+                and not st["pl"]["p"] and after_await(fn, aw, bb):
+            out.append(st["pl"]["l"])
+    return out
+
+
 def result_switches_of(fn, local, adt_rx=r"^std::result::Result$"):
     """Switches on the discriminant of a value that flows from `local` (e.g. the payload of an await)."""
     out = []
@@ -252,11 +264,16 @@ SPAWN = r"^tokio::spawn$|^tokio::task::spawn$|^tokio::task::spawn_local$|^tokio:
 
 
 def spawned_coroutine(fn, spawn_term):
-    """(coroutine Fn, aggregate stmt) handed to a spawn call.  The argument is either an async block
-    built in `fn`, or the future returned by a call to a crate-local `async fn`; in the second case
-    a synthetic aggregate is returned whose operands are the caller's arguments in the order in
-    which the async fn's coroutine captures its parameters."""
-    op = spawn_term["args"][0]
+    """(coroutine Fn, aggregate stmt) handed to a spawn call: see coroutine_of_operand."""
+    return coroutine_of_operand(fn, spawn_term["args"][0])
+
+
+def coroutine_of_operand(fn, op):
+    """(coroutine Fn, aggregate stmt) of a future value that is not awaited in place but spawned / boxed /
+    shared.  The operand is either an async block built in `fn` (also: the coroutine aggregate of an unknown
+    `async fn` whose wrapper the engine inlined), or the future returned by a call to a crate-local
+    `async fn`; in the second case a synthetic aggregate is returned whose operands are the caller's
+    arguments in the order in which the async fn's coroutine captures its parameters."""
     g, node = closure_of_operand(fn, op)
     if g is not None and node["rv"].get("agg") == "coroutine":
         return g, node
@@ -405,12 +422,263 @@ PANIC_KINDS_TEXT = ("calls to Option/Result unwrap/expect/unwrap_err/expect_err,
                     "any other call that never returns, and MIR Assert terminators (overflow, division by zero, bounds)")
 
 
+# --------------------------------------------------------------------------- path-sensitive enum variants
+_VARIANT_TESTS = {"Option::<T>::is_some": ("std::option::Option", 1, 0), "Option::<T>::is_none": ("std::option::Option", 0, 1),
+                  "Result::<T, E>::is_ok": ("std::result::Result", 0, 1), "Result::<T, E>::is_err": ("std::result::Result", 1, 0)}
+
+
+def _pkey(pl):
+    """Hashable identity of a place without index projections (None if it has one)."""
+    out = []
+    for e in pl["p"]:
+        if isinstance(e, dict):
+            if "idx" in e:
+                return None
+            out.append(("f", e["f"]) if "f" in e else ("dc", e.get("v"), e.get("dc")))
+        else:
+            out.append(e)
+    return (pl["l"], tuple(out))
+
+
+def infeasible_variant_edges(fn):
+    """Switch edges that no execution can take because the scrutinee place certainly holds another enum
+    variant there: a forward *must* analysis over the (already pruned) CFG.  A place is known to hold variant
+    i after it was assigned an aggregate of that variant (directly or through a local with that single
+    definition), on the i-edge of an earlier switch on its discriminant, and on the edges of a boolean switch
+    fed by `is_some / is_none / is_ok / is_err(&place)` (copies and `!` of the flag followed).  Knowledge about
+    a place dies with any write to its base local, a `&mut` / raw borrow of it, a move out of it, a drop, or a
+    call that receives a mutable reference derived from it.  Facts meet by intersection, so a loop or a join
+    only keeps what holds on every path.  Returns a set of (switch_bb, target_bb).
+
+    This is what makes `if x.is_none() { x = Some(..) } match x { Some(v) => v, None => unreachable!() }`
+    equivalent to `x.get_or_insert_with(..)` for the panic census: the None arm is dead code."""
+    cached = getattr(fn, "_c16_infeasible", None)
+    if cached is not None:
+        return cached
+    defs = fn.defs()
+    nblk = len(fn.blocks)
+
+    def mut_roots(op):
+        """Base locals that a call receiving `op` may write through (the operand is, or is built from, a
+        `&mut` / raw pointer / by-value move of a place of that local)."""
+        out = set()
+        if op.get("k") not in ("copy", "move"):
+            return out
+        if op.get("k") == "move":
+            out.add(op["pl"]["l"])
+        seen, todo = set(), [(op["pl"]["l"], False, 0)]
+        while todo:
+            l, viamut, depth = todo.pop()
+            if (l, viamut) in seen or depth > 6:
+                continue
+            seen.add((l, viamut))
+            for bb, kind, node in defs.get(l, []):
+                if kind == "assign":
+                    rv = node["rv"]
+                    if rv["rv"] in ("ref", "rawptr"):
+                        m = viamut or rv["rv"] == "rawptr" or bool(rv.get("mut"))
+                        if m:
+                            out.add(rv["pl"]["l"])
+                        todo.append((rv["pl"]["l"], m, depth + 1))
+                    elif rv["rv"] in ("use", "cast"):
+                        o = rv["op"]
+                        if o.get("k") in ("copy", "move"):
+                            todo.append((o["pl"]["l"], viamut, depth + 1))
+                    elif rv["rv"] == "copyderef":
+                        todo.append((rv["pl"]["l"], viamut, depth + 1))
+                    elif rv["rv"] == "agg":
+                        for o in rv["ops"]:
+                            if o.get("k") in ("copy", "move"):
+                                todo.append((o["pl"]["l"], viamut, depth + 1))
+                elif kind == "call":
+                    for o in node["args"]:
+                        if o.get("k") in ("copy", "move"):
+                            todo.append((o["pl"]["l"], viamut, depth + 1))
+        return out
+
+    def kill(state, l):
+        for k in [k for k in state if (k[0] == "p" and k[1][0] == l) or (k[0] in ("v", "b") and k[1] == l) or
+                  (k[0] == "b" and state[k][0][0] == l)]:
+            del state[k]
+
+    def ref_target(op):
+        """place P if the operand is a local whose single definition is `&P` (shared borrow, live until its use)."""
+        if op.get("k") not in ("copy", "move") or op["pl"]["p"]:
+            return None
+        ds = defs.get(op["pl"]["l"], [])
+        if len(ds) == 1 and ds[0][1] == "assign" and ds[0][2]["rv"]["rv"] == "ref" and not ds[0][2]["pl"]["p"]:
+            return ds[0][2]["rv"]["pl"]
+        return None
+
+    def transfer(bb, state):
+        """state after the statements and the terminator's own effects; plus per-target additions."""
+        state = dict(state)
+        blk = fn.blocks[bb]
+        for st in blk["st"]:
+            if st["s"] != "assign":
+                continue
+            rv, w = st["rv"], st["pl"]
+            gen = None
+            if rv["rv"] == "agg" and rv.get("agg") == "adt":
+                a = fn.facts.adts.get(rv["adt"])
+                if a and a.get("kind") == "enum":
+                    for i, v in enumerate(a["variants"]):
+                        if v["name"] == rv["variant"]:
+                            gen = ("p", i)
+            elif rv["rv"] == "use" and rv["op"].get("k") in ("copy", "move"):
+                kv = fn._known_variant_of(rv["op"], defs)
+                sk = _pkey(rv["op"]["pl"])
+                if kv is not None:
+                    gen = ("p", kv[1])
+                elif sk is not None and ("p", sk) in state:
+                    gen = ("p", state[("p", sk)])
+                elif not rv["op"]["pl"]["p"] and ("b", rv["op"]["pl"]["l"]) in state:
+                    gen = ("b", state[("b", rv["op"]["pl"]["l"])])
+            elif rv["rv"] == "unop" and rv["op"] == "Not" and rv["a"].get("k") in ("copy", "move") and not rv["a"]["pl"]["p"] \
+                    and ("b", rv["a"]["pl"]["l"]) in state:
+                pk, vt, vf = state[("b", rv["a"]["pl"]["l"])]
+                gen = ("b", (pk, vf, vt))
+            elif rv["rv"] == "discr":
+                sk = _pkey(rv["pl"])
+                if sk is not None and ("p", sk) in state:
+                    gen = ("v", state[("p", sk)])
+            if rv["rv"] in ("ref", "rawptr") and (rv["rv"] == "rawptr" or rv.get("mut")):
+                kill(state, rv["pl"]["l"])
+            if rv["rv"] == "use" and rv["op"].get("k") == "move":
+                kill(state, rv["op"]["pl"]["l"])
+            kill(state, w["l"])
+            if gen is not None:
+                wk = _pkey(w)
+                if gen[0] == "p" and wk is not None and "*" not in wk[1][1:]:
+                    state[("p", wk)] = gen[1]
+                elif gen[0] in ("b", "v") and not w["p"]:
+                    state[(gen[0], w["l"])] = gen[1]
+        t = blk["term"]
+        per_target = {}
+        if t["t"] == "call":
+            for a in t["args"]:
+                for l in mut_roots(a):
+                    kill(state, l)
+            kill(state, t["dest"]["l"])
+            c = t.get("callee") or ""
+            for suffix, (adt, vt, vf) in _VARIANT_TESTS.items():
+                if c.endswith(suffix) and t["args"] and not t["dest"]["p"]:
+                    p = ref_target(t["args"][0])
+                    pk = _pkey(p) if p is not None else None
+                    if pk is not None:
+                        state[("b", t["dest"]["l"])] = (pk, vt, vf)
+        elif t["t"] == "drop":
+            kill(state, t["pl"]["l"])
+        elif t["t"] == "yield":
+            if "resume_pl" in t:
+                kill(state, t["resume_pl"]["l"])
+            if t["value"].get("k") == "move":
+                kill(state, t["value"]["pl"]["l"])
+        elif t["t"] == "switch" and t["discr"].get("k") in ("copy", "move") and not t["discr"]["pl"]["p"]:
+            dl = t["discr"]["pl"]["l"]
+            only = None
+            if ("v", dl) in state:
+                only = fn.switch_target(bb, state[("v", dl)])
+            elif ("b", dl) in state:
+                pk, vt, vf = state[("b", dl)]
+                tb, fb = fn.bool_edges(bb)
+                if tb is not None and tb != fb:
+                    per_target[tb] = {("p", pk): vt}
+                    per_target[fb] = {("p", pk): vf}
+            else:
+                ds = defs.get(dl, [])
+                if len(ds) == 1 and ds[0][0] == bb and ds[0][1] == "assign" and ds[0][2]["rv"]["rv"] == "discr":
+                    pk = _pkey(ds[0][2]["rv"]["pl"])
+                    later = False
+                    seen_def = False
+                    for st in blk["st"]:
+                        if st is ds[0][2]:
+                            seen_def = True
+                        elif seen_def and st["s"] == "assign" and st["pl"]["l"] == (pk[0] if pk else None):
+                            later = True
+                    if pk is not None and not later and "*" not in pk[1][1:]:
+                        cnt = {}
+                        for v, b in t["targets"]:
+                            cnt[b] = cnt.get(b, 0) + 1
+                        for v, b in t["targets"]:
+                            if cnt[b] == 1 and b != t["otherwise"]:
+                                per_target[b] = {("p", pk): v}
+            if only is not None:
+                per_target["only"] = only
+        return state, per_target
+
+    def meet(a, b):
+        return {k: v for k, v in a.items() if k in b and b[k] == v}
+
+    ins = {0: {}}
+    work = [0]
+    steps = 0
+    while work:
+        bb = work.pop()
+        steps += 1
+        if steps > 40 * nblk + 1000:
+            fn._c16_infeasible = set()     # no fixed point within the bound: claim nothing
+            return fn._c16_infeasible
+        if fn.blocks[bb]["cleanup"]:
+            continue
+        out, per = transfer(bb, ins[bb])
+        only = per.get("only")
+        for s in fn.succ(bb):
+            if only is not None and s != only:
+                continue
+            es = dict(out)
+            es.update(per.get(s, {}))
+            if s not in ins:
+                ins[s] = es
+                work.append(s)
+            else:
+                m = meet(ins[s], es)
+                if m != ins[s]:
+                    ins[s] = m
+                    work.append(s)
+    dead = set()
+    for bb in ins:
+        if fn.blocks[bb]["cleanup"] or fn.blocks[bb]["term"]["t"] != "switch":
+            continue
+        out, per = transfer(bb, ins[bb])
+        only = per.get("only")
+        if only is not None:
+            dead |= set((bb, s) for s in fn.succ(bb) if s != only)
+    fn._c16_infeasible = dead
+    return dead
+
+
+def live_blocks(fn):
+    """Blocks of the normal CFG that some execution of the shipped (release) server can reach: reachable from the
+    entry without the infeasible variant edges, minus debug_assert! bodies."""
+    return fn.reachable(0, avoid_edges=infeasible_variant_edges(fn)) - fn.debug_only_blocks()
+
+
+def owner_fn(facts, fn):
+    """The source-level function item a body belongs to: closures, async blocks and coroutine bodies belong to the
+    named function that contains them; closures of a helper that was inlined (and dropped) belong to the function
+    it was inlined into."""
+    cur = fn
+    for _ in range(12):
+        if cur.raw.get("kind") != "Closure":
+            return cur
+        p = cur.raw.get("parent")
+        if p in facts.F:
+            cur = facts.F[p]
+            continue
+        hosts = sorted((g for g in facts.F.values() if p in g.raw.get("inlined", [])), key=lambda g: g.id)
+        if not hosts:
+            return cur
+        cur = hosts[0]
+    return cur
+
+
 def panic_sites(fn):
     """[(kind, what, bucket)] for every reachable non-cleanup potential-panic site of fn.
     kind: 'call' | 'assert'.  bucket=True for sites written by a foreign macro's own tokens
     (expansion flag set and not one of the std panic macros themselves): counted per function,
     not per site."""
-    reach = fn.reachable(0) - fn.debug_only_blocks()   # debug_assert! bodies are not in release builds
+    reach = live_blocks(fn)   # debug_assert! bodies are not in release builds; arms of a variant the scrutinee cannot hold are dead
     out = []
     for blk in fn.blocks:
         if blk["cleanup"] or blk["bb"] not in reach:
@@ -435,11 +703,15 @@ def norm_fid(fid):
     return re.sub(r"\b\w+::_::_serde::", "serde::", fid)
 
 
-def load_panic_table(path):
-    """tables/*_panics.txt: `region | function | kind | what | count | reason` per line; count is an
-    integer (upper bound, exact multiplicity today) or `*` for a per-function macro bucket."""
+def load_panic_table(path, features=""):
+    """tables/*_panics.txt: `region | function | kind | what | count | reason` per line.  `function` is the
+    source-level function item (closures and async blocks inside it are counted with it).  count is an integer
+    (upper bound, exact multiplicity today), `*` for a per-function macro bucket, or `N+M@feature` for N sites
+    in every configuration and M more when the cargo feature is enabled.  Returns the allowance that applies
+    to the configuration `features`."""
     rows = {}
     errs = []
+    feats = set(x for x in (features or "").split(",") if x)
     for n, line in enumerate(open(path), 1):
         s = line.strip()
         if not s or s.startswith("#"):
@@ -452,7 +724,13 @@ def load_panic_table(path):
         key = (region, fid, kind, what)
         if key in rows:
             errs.append("line %d repeats %s" % (n, " | ".join(key)))
-        rows[key] = (None if cnt == "*" else int(cnt), reason)
+        m = re.match(r"^(\d+)(?:\+(\d+)@([\w-]+))?$", cnt)
+        if cnt == "*":
+            rows[key] = (None, reason)
+        elif m:
+            rows[key] = (int(m.group(1)) + (int(m.group(2)) if m.group(3) and m.group(3) in feats else 0), reason)
+        else:
+            errs.append("line %d: count `%s` is not an integer, `*` or `N+M@feature`" % (n, cnt))
     return rows, errs
 
 
